@@ -51,6 +51,26 @@ def admissible(kt, max_reactive=3, max_sources=2):
     return 1 <= nr <= max_reactive and 1 <= ns <= max_sources
 
 
+def twin_reactive(kt):
+    """exactly one source, exactly two reactive elements of the same kind, resistors elsewhere"""
+    nc = sum(1 for k in kt if k == "C")
+    nl = sum(1 for k in kt if k == "L")
+    ns = sum(1 for k in kt if k in ("V", "I"))
+    return ns == 1 and ((nc == 2 and nl == 0) or (nl == 2 and nc == 0))
+
+
+def kind_tuples(b, filt="admissible", max_reactive=3):
+    if filt == "twin":
+        return [kt for kt in itertools.product(DK, repeat=b) if twin_reactive(kt)]
+    return [kt for kt in itertools.product(DK, repeat=b) if admissible(kt, max_reactive=max_reactive)]
+
+
+def orientations(b, mode):
+    if mode == "all":
+        return list(range(2 ** b))
+    return [0b01011 & (2 ** b - 1), 0b10110 & (2 ** b - 1)]
+
+
 _ND = {}
 
 
